@@ -334,10 +334,10 @@ Fixpoint scheduleCode (r : rep) (codes : list sscode) (repID : string) (n : Z) :
     else scheduleCode r rest repID n
   end.
 
-(** what a pattern must satisfy for the theorems: a positive cycle that is not shorter than the
-    first segment, no overflow of cycle*timescale *)
+(** what a pattern must satisfy for the theorems: a cycle the parser accepts (1 .. 2^31-1 s) that is
+    not shorter than the first segment *)
 Definition goodCode (r : rep) (ss : sscode) : Prop :=
-  0 < sc_cycle ss /\ sc_cycle ss * ts r < two63 /\ E r 0 <= sc_cycle ss * ts r.
+  0 < sc_cycle ss <= 2147483647 /\ E r 0 <= sc_cycle ss * ts r.
 
 Section Sched.
 Variable r : rep.
@@ -376,19 +376,21 @@ Definition codeFirstNr (c : tcfg) (startTime repTs cycle : Z) : res Z :=
   let cycleInTimescale := i64 (cycle * repTs) in
   let nrWraps := Z.quot startTime cycleInTimescale in
   let wrapStartS := i64 (nrWraps * cycle) in
-  let firstNr0 := if nrWraps >? 0 then findLastSegNr r loopMS c (i64 (wrapStartS * 1000)) + 1 else 0 in
+  let firstNr0 := if nrWraps >? 0 then findLastSegNr r loopMS c (i64 (wrapStartS * 1000)) + 1 else startNr c in
   do segTime <- findSegStartTime r loopMS c firstNr0;
   Ok (if segTime <? i64 (wrapStartS * repTs) then firstNr0 + 1 else firstNr0).
 
 Lemma codeFirstNr_spec c ss n :
   startS c = 0 -> startNr c = 0 -> repDuration r < two64 -> goodCode r ss -> 0 <= n -> S r n * 1000 < two63 ->
+  ts r < two32 ->
   codeFirstNr c (S r n) (ts r) (sc_cycle ss) = Ok (firstInCycle r (sc_cycle ss) n).
 Proof.
-  intros Hst Hsn HD (Hc & Hov & HE0) Hn HSb. pose proof (wf_ts _ _ W) as Hts.
+  intros Hst Hsn HD ([Hc Hcmax] & HE0) Hn HSb Hts32. pose proof (wf_ts _ _ W) as Hts.
+  assert (Hov : sc_cycle ss * ts r < two63) by (unfold two63, two32 in *; nia).
   pose proof (S_nonneg r loopMS n W Hn) as HS0.
   set (cycle := sc_cycle ss) in *. set (cyT := cycle * ts r) in *.
   assert (HcyT : 0 < cyT) by (unfold cyT; nia).
-  unfold codeFirstNr. fold cycle. fold cyT. rewrite (i64_id cyT) by (unfold two63 in *; lia).
+  unfold codeFirstNr. rewrite Hsn. fold cycle. fold cyT. rewrite (i64_id cyT) by (unfold two63 in *; lia).
   rewrite Z.quot_div_nonneg by lia.
   set (q := S r n / cyT).
   assert (Hq : 0 <= q) by (apply Z.div_pos; lia).
@@ -445,16 +447,17 @@ Qed.
     representation filter matches and whose relative number is n - firstInCycle. *)
 Lemma statusLoop_spec c repID n codes :
   startS c = 0 -> startNr c = 0 -> repDuration r < two64 -> Forall (goodCode r) codes -> 0 <= n ->
-  S r n * 1000 < two63 ->
+  S r n * 1000 < two63 -> ts r < two32 ->
   statusLoop r loopMS c repID (S r n) (ts r) n codes = Ok (scheduleCode r codes repID n).
 Proof.
-  intros Hst Hsn HD Hgood Hn HSb. induction Hgood as [|ss rest Hss _ IH]; [reflexivity|].
+  intros Hst Hsn HD Hgood Hn HSb Hts32. induction Hgood as [|ss rest Hss _ IH]; [reflexivity|].
   rewrite statusLoop_cons. cbn [scheduleCode].
   destruct (repInReps repID (sc_reps ss)) eqn:Erep; cbn [negb andb]; [|exact IH].
-  pose proof Hss as (Hc & Hov & HE0). pose proof (wf_ts _ _ W) as Hts.
+  pose proof Hss as ([Hc Hcmax] & HE0). pose proof (wf_ts _ _ W) as Hts.
+  assert (Hov : sc_cycle ss * ts r < two63) by (unfold two63, two32 in *; nia).
   rewrite i64_id by (unfold two63 in *; nia).
   destruct (sc_cycle ss * ts r =? 0) eqn:E0; [nia|].
-  rewrite (codeFirstNr_spec c ss n Hst Hsn HD Hss Hn HSb). cbn [bind].
+  rewrite (codeFirstNr_spec c ss n Hst Hsn HD Hss Hn HSb Hts32). cbn [bind].
   destruct (firstInCycle_spec (sc_cycle ss) n Hc Hn) as [_ Hle].
   destruct (n - firstInCycle r (sc_cycle ss) n <? 0) eqn:Eneg; [lia|].
   destruct (n - firstInCycle r (sc_cycle ss) n =? sc_rsq ss); [reflexivity|exact IH].
@@ -480,12 +483,12 @@ Qed.
 
 (** A request by number (video, or audio: the reference segment with the same number). *)
 Lemma segAnswer_number c codes repID audio n now base :
-  startS c = 0 -> startNr c = 0 -> repDuration r < two64 -> Forall (goodCode r) codes -> codes <> [] ->
+  startS c = 0 -> startNr c = 0 -> repDuration r < two64 -> Forall (goodCode r) codes -> codes <> [] -> forallb codeValid codes = true ->
   0 <= n < two32 -> S r n * 1000 < two63 -> ts r < two32 -> 0 <= now ->
   segAnswer r loopMS c codes repID audio ByNumber n now base =
   timedAnswer (checkTime (E r n) (ts r) now (tsbdS c) (ato c)) (scheduled codes repID n base).
 Proof.
-  intros Hst Hsn HD Hgood Hne Hn HS Hts Hnow. unfold segAnswer. rewrite Hst. cbn [Z.mul].
+  intros Hst Hsn HD Hgood Hne Hval Hn HS Hts Hnow. unfold segAnswer. rewrite Hval, Hst. cbn [negb Z.mul].
   destruct (now <? 0) eqn:E0; [lia|]. destruct codes as [|c0 cs] eqn:Ec; [congruence|]. rewrite <- Ec in *.
   assert (Hf : findSegMeta r loopMS c audio ByNumber n now = lookup r loopMS c ByNumber n now)
     by (unfold findSegMeta; destruct audio as [[? ?]|]; reflexivity).
@@ -500,12 +503,12 @@ Qed.
 
 (** A video request by time ($Time$ addressing): the segment that starts at S n. *)
 Lemma segAnswer_time c codes repID n now base :
-  startS c = 0 -> startNr c = 0 -> repDuration r < two64 -> Forall (goodCode r) codes -> codes <> [] ->
+  startS c = 0 -> startNr c = 0 -> repDuration r < two64 -> Forall (goodCode r) codes -> codes <> [] -> forallb codeValid codes = true ->
   0 <= n < two32 -> S r n * 1000 < two63 -> ts r < two32 -> 0 <= now ->
   segAnswer r loopMS c codes repID None ByTime (S r n) now base =
   timedAnswer (checkTime (E r n) (ts r) now (tsbdS c) (ato c)) (scheduled codes repID n base).
 Proof.
-  intros Hst Hsn HD Hgood Hne Hn HS Hts Hnow. unfold segAnswer. rewrite Hst. cbn [Z.mul].
+  intros Hst Hsn HD Hgood Hne Hval Hn HS Hts Hnow. unfold segAnswer. rewrite Hval, Hst. cbn [negb Z.mul].
   destruct (now <? 0) eqn:E0; [lia|]. destruct codes as [|c0 cs] eqn:Ec; [congruence|]. rewrite <- Ec in *.
   pose proof (S_nonneg r loopMS n W ltac:(lia)) as HS0. pose proof (wf_ts _ _ W).
   unfold findSegMeta. rewrite lookup_time by (unfold two63, two64 in *; lia).
@@ -513,7 +516,7 @@ Proof.
   destruct (checkTime (E r n) (ts r) now (tsbdS c) (ato c)); cbn [timed timedAnswer]; [|reflexivity|reflexivity].
   unfold calcStatusCode. cbn [newTime mtimescale newNr].
   rewrite i64_id by (unfold two63 in *; lia). rewrite !u32_id by lia.
-  rewrite (statusLoop_spec c repID n codes Hst Hsn HD Hgood ltac:(lia) HS). unfold scheduled.
+  rewrite (statusLoop_spec c repID n codes Hst Hsn HD Hgood ltac:(lia) HS Hts). unfold scheduled.
   destruct (scheduleCode r codes repID n =? 0); reflexivity.
 Qed.
 
@@ -552,11 +555,12 @@ Proof.
   split; [exact w_rep2_wf|]. repeat split; try (cbn; unfold two63; lia); vm_compute; reflexivity.
 Qed.
 
-(** snr_7: the first segment (number 7) panics; segment 9 (number 16, second of the cycle that starts
-    at 16 s) is not hit. *)
+(** snr_7: the first cycle is counted from the start number, but lastNr() of the later cycles
+    is not: number 11 (segment 4, first of the cycle that starts at 8 s) panics; segment 9 (number
+    16, second of the cycle that starts at 16 s) is not hit. *)
 Lemma snr_refuted :
   wf w_rep2 8000 /\ goodCode w_rep2 (w_code 8 1 404) /\
-  segAnswer w_rep2 8000 (w_cfg 0 7) [w_code 8 1 404] "V300" None ByNumber 7 2037 200
+  segAnswer w_rep2 8000 (w_cfg 0 7) [w_code 8 1 404] "V300" None ByNumber 11 10037 200
     = APanic "findSegStartTime: index out of range" /\
   scheduleCode w_rep2 [w_code 8 1 404] "V300" 9 = 404 /\
   segAnswer w_rep2 8000 (w_cfg 0 7) [w_code 8 1 404] "V300" None ByNumber 16 20037 200 = AStatus 200.
@@ -577,18 +581,18 @@ Lemma short_cycle_refuted :
   segAnswer w_rep8 8000 (w_cfg 0 0) [w_code 3 1 599] "V300" None ByNumber 1 16037 200 = AStatus 599.
 Proof.
   split; [exact w_rep6_wf|]. split; [exact w_rep8_wf|].
-  split; [intros (_ & _ & H); vm_compute in H; apply H; reflexivity|].
-  split; [intros (_ & _ & H); vm_compute in H; apply H; reflexivity|].
+  split; [intros (_ & H); vm_compute in H; apply H; reflexivity|].
+  split; [intros (_ & H); vm_compute in H; apply H; reflexivity|].
   repeat split; vm_compute; reflexivity.
 Qed.
 
-(** cycle * timescale wraps to 0: division by zero *)
-Lemma cycle_wrap_refuted :
+(** a cycle above 2^31 s is refused (cycle * timescale used to wrap to 0: division by zero) *)
+Lemma cycle_wrap_rejected :
   ~ goodCode w_rep2 (w_code 1152921504606846976 38 404) /\
   segAnswer w_rep2 8000 (w_cfg 0 0) [w_code 1152921504606846976 38 404] "V300" None ByNumber 38 78037 200
-    = APanic "calcStatusCode: integer divide by zero".
+    = AStatus 400.
 Proof.
-  split; [intros (_ & H & _); vm_compute in H; discriminate H|vm_compute; reflexivity].
+  split; [intros ([_ H] & _); vm_compute in H; apply H; reflexivity|vm_compute; reflexivity].
 Qed.
 
 (** * Corollaries in the form of the property text *)
@@ -671,15 +675,15 @@ Qed.
 
 (** An audio request by $Time$ whose time lies in reference segment n is answered by the schedule of n. *)
 Lemma segAnswer_audio_time c codes repID ats sd t n now base :
-  startS c = 0 -> startNr c = 0 -> repDuration r < two64 -> Forall (goodCode r) codes -> codes <> [] ->
+  startS c = 0 -> startNr c = 0 -> repDuration r < two64 -> Forall (goodCode r) codes -> codes <> [] -> forallb codeValid codes = true ->
   0 <= n < two32 -> S r n * 1000 < two63 -> ts r < two32 -> 0 <= now ->
   0 < ats -> 0 < sd -> t mod sd = 0 -> 0 <= t -> t * ts r < two64 ->
   S r n <= t * ts r / ats < E r n ->
   segAnswer r loopMS c codes repID (Some (ats, sd)) ByTime t now base =
   timedAnswer (checkTime (E r n) (ts r) now (tsbdS c) (ato c)) (scheduled r codes repID n base).
 Proof.
-  intros Hst Hsn HD Hgood Hne Hn HS Hts Hnow Hats Hsd Hmod Ht Htb HR.
-  unfold segAnswer. rewrite Hst. cbn [Z.mul].
+  intros Hst Hsn HD Hgood Hne Hval Hn HS Hts Hnow Hats Hsd Hmod Ht Htb HR.
+  unfold segAnswer. rewrite Hval, Hst. cbn [negb Z.mul].
   destruct (now <? 0) eqn:E0; [lia|]. destruct codes as [|c0 cs] eqn:Ec; [congruence|]. rewrite <- Ec in *.
   pose proof (wf_ts _ _ W). pose proof (S_nonneg r loopMS n W ltac:(lia)) as HS0.
   unfold findSegMeta. rewrite u64_id by (unfold two64 in *; nia).
@@ -689,7 +693,7 @@ Proof.
   unfold calcStatusCode. cbn [newTime mtimescale newNr].
   rewrite i64_id by (unfold two63 in *; lia). change (u32 0) with 0. rewrite Z.add_0_r.
   rewrite !u32_id by (try lia; rewrite u32_id; lia).
-  rewrite (statusLoop_spec r loopMS W c repID n codes Hst Hsn HD Hgood ltac:(lia) HS). unfold scheduled.
+  rewrite (statusLoop_spec r loopMS W c repID n codes Hst Hsn HD Hgood ltac:(lia) HS Hts). unfold scheduled.
   destruct (scheduleCode r codes repID n =? 0); reflexivity.
 Qed.
 
